@@ -361,27 +361,41 @@ Proof.
     apply trim_right_crlf_snoc. now apply trimmed_last with (l := l).
 Qed.
 
-(* what Send writes *)
-Definition enc (mt r : bytes) : bytes :=
+(* what Send writes: the header block for a payload of n bytes, then the payload *)
+Definition enc_hdr (mt : bytes) (n : N) : bytes :=
   (match mt with [] => [] | _ => s_content_type_hdr ++ mt ++ crlf end)
-  ++ s_content_length_hdr ++ itoa (N.of_nat (length r)) ++ crlf ++ crlf ++ r.
+  ++ s_content_length_hdr ++ itoa n ++ crlf ++ crlf.
+
+Definition enc (mt r : bytes) : bytes := enc_hdr mt (N.of_nat (length r)) ++ r.
 
 Lemma send_enc mt r : send mt r = Sent (enc mt r).
-Proof. reflexivity. Qed.
+Proof. unfold send, enc, enc_hdr. now rewrite <- !app_assoc. Qed.
+
+Lemma enc_hdr_length mt n : (3 <= length (enc_hdr mt n))%nat.
+Proof. unfold enc_hdr. rewrite !app_length. cbn [length s_content_length_hdr crlf]. lia. Qed.
 
 Lemma enc_nonempty mt r : enc mt r <> [].
-Proof. unfold enc. destruct mt; cbn; discriminate. Qed.
-
-Lemma hdr_loop_enc f mt r rest :
-  usable_mime mt = true ->
-  hdr_loop (S (S (S f))) [] [] (enc mt r ++ rest) = HDone mt (itoa (N.of_nat (length r))) (r ++ rest).
 Proof.
-  intros Hu. destruct (usable_mime_spec _ Hu) as [Ht Hlf]. unfold enc.
+  unfold enc. pose proof (enc_hdr_length mt (N.of_nat (length r))).
+  destruct (enc_hdr mt (N.of_nat (length r))); [cbn in *; lia | discriminate].
+Qed.
+
+Lemma hdr_loop_enc_hdr f mt n rest :
+  usable_mime mt = true ->
+  hdr_loop (S (S (S f))) [] [] (enc_hdr mt n ++ rest) = HDone mt (itoa n) rest.
+Proof.
+  intros Hu. destruct (usable_mime_spec _ Hu) as [Ht Hlf]. unfold enc_hdr.
   destruct mt as [|m0 mt'].
   - cbn [app]. rewrite <- !app_assoc. rewrite hdr_loop_clen. apply hdr_loop_blank.
   - remember (m0 :: mt') as mt. rewrite <- !app_assoc.
     rewrite hdr_loop_ctype; auto; [|subst; discriminate].
     rewrite hdr_loop_clen. apply hdr_loop_blank.
+Qed.
+
+Lemma fuel_enc_hdr mt n rest : exists f, S (length (enc_hdr mt n ++ rest)) = S (S (S f)).
+Proof.
+  pose proof (enc_hdr_length mt n). rewrite app_length.
+  exists (length (enc_hdr mt n) + length rest - 2)%nat. lia.
 Qed.
 
 (* ---- the body: buffer policy and ReadFull / CopyN -------------------------------- *)
@@ -448,25 +462,31 @@ Lemma recv_of_strict_err c p want st s e st' rest :
   recv_strict c want st s = Err e st' rest -> recv c p want st s = Err e st' rest.
 Proof. intros H. unfold recv. rewrite H. destruct p; reflexivity. Qed.
 
+(* a header block for n bytes at the front of the stream: Recv reads exactly n bytes *)
+Lemma recv_enc_hdr mt st n rest :
+  usable_mime mt = true -> (Z.of_N n <= max_int)%Z -> st <= buf_bound ->
+  exists st', st' <= buf_bound /\
+    recv_strict cfg_fixed mt st (enc_hdr mt n ++ rest) = body_outcome n None st' rest.
+Proof.
+  intros Hu Hlen Hst.
+  destruct (fuel_enc_hdr mt n rest) as [f Hf].
+  destruct (itoa_spec n) as [Hne _].
+  destruct (recv_body_valid mt mt (itoa n) st rest (Z.of_N n)) as [st' [Hst' Hb]]; auto.
+  { now apply atoi_itoa. }
+  { lia. }
+  exists st'. split; auto. rewrite recv_strict_unfold, Hf, hdr_loop_enc_hdr by assumption.
+  rewrite Hb, N2Z.id, beq_refl. reflexivity.
+Qed.
+
 (* one framed record at the front of the stream *)
 Lemma recv_enc_ok p mt st r rest :
   usable_mime mt = true -> (Z.of_nat (length r) <= max_int)%Z -> st <= buf_bound ->
   exists st', recv cfg_fixed p mt st (enc mt r ++ rest) = Ok r st' rest /\ st' <= buf_bound.
 Proof.
-  intros Hu Hlen Hst.
-  assert (Hfuel : exists f, S (length (enc mt r ++ rest)) = S (S (S f))).
-  { unfold enc. rewrite !app_length. cbn [length s_content_length_hdr].
-    exists (length (match mt with [] => [] | _ :: _ => s_content_type_hdr ++ mt ++ crlf end) + 14
-            + (length (itoa (N.of_nat (length r))) + (length crlf + (length crlf + length r))) + length rest)%nat.
-    lia. }
-  destruct Hfuel as [f Hf].
-  destruct (itoa_spec (N.of_nat (length r))) as [Hne _].
-  destruct (recv_body_valid mt mt (itoa (N.of_nat (length r))) st (r ++ rest) (Z.of_N (N.of_nat (length r))))
-    as [st' [Hst' Hb]]; auto.
-  { apply atoi_itoa. lia. }
-  { lia. }
-  exists st'. split; auto. apply recv_of_strict_ok. rewrite recv_strict_unfold, Hf, hdr_loop_enc by assumption.
-  rewrite Hb. unfold body_outcome. rewrite N2Z.id, take_n_app, beq_refl. destruct r; reflexivity.
+  intros Hu Hlen Hst. unfold enc. rewrite <- app_assoc.
+  destruct (recv_enc_hdr mt st (N.of_nat (length r)) (r ++ rest)) as [st' [Hst' E]]; auto; [lia|].
+  exists st'. split; auto. apply recv_of_strict_ok. rewrite E. unfold body_outcome.
+  rewrite take_n_app. destruct r; reflexivity.
 Qed.
 
 Lemma recv_nil c p want st : recv c p want st [] = Err EEOF st [].
@@ -498,4 +518,205 @@ Example hdr_round_trip_nonvacuous :
   = [IRec [97]; IRec []; IRec [98; 99]; IErr EEOF] /\
   recv_all cfg_fixed Strict [] 0 (concat (map (enc []) [[]; [10; 13]]))
   = [IRec []; IRec [10; 13]; IErr EEOF].
+Proof. vm_compute. auto. Qed.
+
+(* ---- C12: no panic, no fuel exhaustion, progress ------------------------------------ *)
+
+Lemma hdr_loop_progress : forall f ct cl s, (length s < f)%nat ->
+  match hdr_loop f ct cl s with
+  | HDone _ _ rest => (length rest < length s)%nat
+  | HErr e rest => (length rest < length s)%nat \/ (s = [] /\ rest = [] /\ e = EEOF)
+  | HOutOfFuel => False
+  end.
+Proof.
+  induction f as [|f IH]; intros ct cl s Hf; [lia|].
+  rewrite hdr_loop_S. destruct (read_string 10 s) as [[raw rest] found] eqn:E.
+  destruct (read_string_spec _ _ _ _ _ E) as [Hs [Ht Hfl]].
+  destruct raw as [|c raw].
+  - destruct found.
+    { destruct (Ht eq_refl) as [q [Hq _]]. destruct q; discriminate. }
+    cbn [negb andb is_nil]. destruct (Hfl eq_refl) as [-> _]. cbn in Hs. subst s. right. auto.
+  - assert (Hlen : (length rest < length s)%nat) by (subst s; cbn; rewrite app_length; lia).
+    replace (negb found && is_nil (c :: raw)) with false by (destruct found; reflexivity).
+    destruct (is_nil (trim_right_crlf (c :: raw))); [exact Hlen|].
+    destruct (split_colon _) as [[name value]|]; [|left; exact Hlen].
+    assert (G : forall ct' cl',
+      match hdr_loop f ct' cl' rest with
+      | HDone _ _ r' => (length r' < length s)%nat
+      | HErr e r' => (length r' < length s)%nat \/ (s = [] /\ r' = [] /\ e = EEOF)
+      | HOutOfFuel => False
+      end).
+    { intros ct' cl'. assert (Hr : (length rest < f)%nat) by lia.
+      specialize (IH ct' cl' rest Hr). destruct (hdr_loop f ct' cl' rest) as [? ? r'|e r'|]; auto.
+      - lia.
+      - left. destruct IH as [IH|[-> [-> _]]]; [lia|]. cbn in *. lia. }
+    destruct (beq _ _); [apply G|]. destruct (beq _ _); apply G.
+Qed.
+
+Lemma recv_body_safe want ct cl st s : st <= buf_bound ->
+  match recv_body cfg_fixed want ct cl st s with
+  | Ok _ st' r' | OkWithErr _ _ st' r' | Err _ st' r' => st' <= buf_bound /\ (length r' <= length s)%nat
+  | _ => False
+  end.
+Proof.
+  intros Hst. destruct cl as [|c0 cl'] eqn:Ecl; [cbn; auto|]. rewrite <- Ecl.
+  destruct (atoi cl) as [z|] eqn:Ea.
+  2:{ unfold recv_body. rewrite Ea. subst cl. cbv beta iota. auto. }
+  destruct (Z.ltb_spec z 0) as [Hneg|Hpos].
+  { unfold recv_body. rewrite Ea. subst cl. cbv beta iota. destruct (Z.ltb_spec z 0); [auto|lia]. }
+  destruct (recv_body_valid want ct cl st s z Hst) as [st' [Hst' E]]; auto; [subst; discriminate|].
+  rewrite E. unfold body_outcome. destruct (take_n (Z.to_N z) s) as [[a r] ok] eqn:Et.
+  destruct (take_n_spec _ _ _ _ _ Et) as [Hs _].
+  assert (length r <= length s)%nat by (subst s; rewrite app_length; lia).
+  destruct ok.
+  - destruct a; unfold finish; destruct (if beq ct want then None else Some (EContentTypeMismatch ct));
+      cbv beta iota; split; assumption.
+  - destruct a; cbv beta iota; split; assumption.
+Qed.
+
+Definition consumed (s : bytes) (x : result N) : Prop :=
+  match x with
+  | Ok _ st' rest | OkWithErr _ _ st' rest | Err _ st' rest => st' <= buf_bound /\ (length rest < length s)%nat
+  | _ => False
+  end.
+
+Lemma recv_strict_cases want st s : st <= buf_bound ->
+  (s = [] /\ recv_strict cfg_fixed want st s = Err EEOF st []) \/
+  (s <> [] /\ consumed s (recv_strict cfg_fixed want st s)).
+Proof.
+  intros Hst. destruct s as [|c s']; [left; auto|]. right. split; [discriminate|].
+  remember (c :: s') as s. rewrite recv_strict_unfold.
+  pose proof (hdr_loop_progress (S (length s)) [] [] s (le_n _)) as P.
+  destruct (hdr_loop (S (length s)) [] [] s) as [ct cl rest|e rest|]; [| |contradiction].
+  - pose proof (recv_body_safe want ct cl st rest Hst) as Q. unfold consumed.
+    destruct (recv_body cfg_fixed want ct cl st rest); try contradiction; destruct Q; split; auto; lia.
+  - unfold consumed. split; auto. destruct P as [P|[-> _]]; [auto|subst; discriminate].
+Qed.
+
+Lemma recv_cases c0 p want st s : st <= buf_bound -> c0 = cfg_fixed ->
+  (s = [] /\ recv c0 p want st s = Err EEOF st []) \/
+  (s <> [] /\ consumed s (recv c0 p want st s)).
+Proof.
+  intros Hst ->. destruct (recv_strict_cases want st s Hst) as [[-> E]|[Hne C]].
+  - left. split; auto. apply recv_nil.
+  - right. split; auto. unfold recv. destruct p; [exact C|].
+    destruct (recv_strict cfg_fixed want st s) as [r st' rest|r e st' rest|e st' rest|k|]; try exact C.
+    destruct e; try exact C. destruct got; exact C.
+Qed.
+
+Theorem hdr_total_no_crash : forall p want st s,
+  st <= buf_bound ->
+  match recv cfg_fixed p want st s with
+  | Ok _ st' _ | OkWithErr _ _ st' _ | Err _ st' _ => st' <= buf_bound
+  | Crash _ | OutOfFuel => False
+  end.
+Proof.
+  intros p want st s Hst. destruct (recv_cases cfg_fixed p want st s Hst eq_refl) as [[-> ->]|[_ C]]; [exact Hst|].
+  unfold consumed in C. destruct (recv cfg_fixed p want st s); try contradiction; tauto.
+Qed.
+
+Lemma hdr_progress p want : progress_ok (recv cfg_fixed p want) (fun st => st <= buf_bound).
+Proof.
+  intros st s Hst. destruct (recv_cases cfg_fixed p want st s Hst eq_refl) as [[-> ->]|[_ C]].
+  - split; auto. right. split; auto. exists st. rewrite recv_nil. auto.
+  - unfold consumed in C. destruct (recv cfg_fixed p want st s); try contradiction; destruct C; auto.
+Qed.
+
+(* the whole sequence of Recv calls on any stream: no panic, no fuel exhaustion *)
+Theorem hdr_recv_all_clean : forall p want st s, st <= buf_bound -> clean (recv_all cfg_fixed p want st s).
+Proof.
+  intros p want st s Hst. unfold recv_all.
+  apply (recv_all_clean _ (fun st => st <= buf_bound)); auto. apply hdr_progress.
+Qed.
+
+Theorem hdr_exhausted : forall c p want st,
+  recv c p want st [] = Err EEOF st [] /\ recv_all c p want st [] = [IErr EEOF].
+Proof.
+  intros c p want st. split; [apply recv_nil|].
+  unfold recv_all, recv_all_from. cbn [length recv_all_loop]. rewrite recv_nil.
+  cbn [same_as_prev]. rewrite recv_nil. cbn. reflexivity.
+Qed.
+
+(* F5: before the fix an absurd Content-Length panicked in make *)
+Definition cfg_without_F5 : cfg := {| fix_F5 := false; fix_F6 := true |}.
+
+(* "Content-Length: 9223372036854775807" CR LF CR LF   and   "Content-Length: 4611686018427387904" CR LF CR LF abc *)
+Definition stream_maxint : bytes :=
+  s_content_length_hdr ++ [57;50;50;51;51;55;50;48;51;54;56;53;52;55;55;53;56;48;55] ++ crlf ++ crlf.
+Definition stream_2p62 : bytes :=
+  s_content_length_hdr ++ [52;54;49;49;54;56;54;48;49;56;52;50;55;51;56;55;57;48;52] ++ crlf ++ crlf ++ [97;98;99].
+
+Lemma hdr_refuted_without_F5 :
+  recv cfg_without_F5 Strict [] 0 stream_maxint = Crash MakeSliceRange /\
+  recv cfg_without_F5 Optional lsp_mime 0 stream_2p62 = Crash MakeSliceRange /\
+  recv cfg_fixed Strict [] 0 stream_maxint = Err EEOF 0 [] /\
+  recv cfg_fixed Optional lsp_mime 0 stream_2p62 = Err EUnexpectedEOF 0 [].
+Proof. vm_compute. auto. Qed.
+
+(* ---- C12: truncation --------------------------------------------------------------- *)
+
+Lemma same_as_prev_not_err prev it :
+  (forall e, prev <> Some (IErr e)) -> same_as_prev prev it = false.
+Proof.
+  intros H. unfold same_as_prev. destruct it; auto. destruct prev as [q|]; auto.
+  destruct (item_eqb q (IErr e)) eqn:E; auto. apply item_eqb_eq in E. subst. exfalso. eapply H; eauto.
+Qed.
+
+(* complete records followed by anything: the records come out first *)
+Lemma recv_all_loop_records p mt : usable_mime mt = true ->
+  forall rs st fuel prev tail,
+  st <= buf_bound -> Forall (fun r => (Z.of_nat (length r) <= max_int)%Z) rs ->
+  (forall e, prev <> Some (IErr e)) ->
+  exists st' prev', st' <= buf_bound /\ (forall e, prev' <> Some (IErr e)) /\
+    recv_all_loop (recv cfg_fixed p mt) (length rs + fuel) prev st (concat (map (enc mt) rs) ++ tail)
+    = map IRec rs ++ recv_all_loop (recv cfg_fixed p mt) fuel prev' st' tail.
+Proof.
+  intros Hu. induction rs as [|r rs IH]; intros st fuel prev tail Hst Hrs Hp.
+  - exists st, prev. auto.
+  - inversion Hrs as [|? ? Hr Hrs']; subst. cbn [map concat length Nat.add]. rewrite <- app_assoc.
+    destruct (recv_enc_ok p mt st r (concat (map (enc mt) rs) ++ tail) Hu Hr Hst) as [st1 [E Hst1]].
+    cbn [recv_all_loop]. rewrite E.
+    destruct (IH st1 fuel (Some (IRec r)) tail Hst1 Hrs') as [st' [prev' [H1 [H2 H3]]]]; [congruence|].
+    exists st', prev'. split; auto. split; auto. cbn [app]. f_equal. exact H3.
+Qed.
+
+(* a stream cut inside the payload of its last record: the complete records, then an error
+   without any payload bytes (io.ErrUnexpectedEOF; io.EOF if the cut is right after the header) *)
+Theorem hdr_truncation_payload : forall p mt rs r a b st,
+  usable_mime mt = true -> st <= buf_bound ->
+  Forall (fun r => (Z.of_nat (length r) <= max_int)%Z) rs -> (Z.of_nat (length r) <= max_int)%Z ->
+  r = a ++ b -> b <> [] ->
+  recv_all cfg_fixed p mt st (concat (map (enc mt) rs) ++ enc_hdr mt (N.of_nat (length r)) ++ a)
+  = map IRec rs ++ match a with [] => [IErr EEOF] | _ => [IErr EUnexpectedEOF; IErr EEOF] end.
+Proof.
+  intros p mt rs r a b st Hu Hst Hrs Hr -> Hb.
+  unfold recv_all, recv_all_from.
+  set (tail := enc_hdr mt (N.of_nat (length (a ++ b))) ++ a).
+  assert (Hfuel : exists k, S (S (length (concat (map (enc mt) rs) ++ tail))) = (length rs + S (S (S k)))%nat).
+  { assert (length rs <= length (concat (map (enc mt) rs)))%nat.
+    { clear. induction rs as [|x rs IH]; cbn; auto. rewrite app_length.
+      pose proof (enc_nonempty mt x). destruct (enc mt x); [congruence|]. cbn. lia. }
+    pose proof (enc_hdr_length mt (N.of_nat (length (a ++ b)))).
+    exists (length (concat (map (enc mt) rs)) - length rs + (length tail - 1))%nat.
+    rewrite app_length. unfold tail. rewrite app_length. lia. }
+  destruct Hfuel as [k ->].
+  destruct (recv_all_loop_records p mt Hu rs st (S (S (S k))) None tail Hst Hrs) as [st' [prev' [Hst' [Hp' ->]]]];
+    [congruence|].
+  f_equal. unfold tail.
+  destruct (recv_enc_hdr mt st' (N.of_nat (length (a ++ b))) a Hu) as [st2 [Hst2 E]]; auto; [lia|].
+  assert (Hshort : take_n (N.of_nat (length (a ++ b))) a = (a, [], false)).
+  { apply take_n_short. rewrite app_length. destruct b; [congruence|]. cbn [length]. lia. }
+  unfold body_outcome in E. rewrite Hshort in E.
+  cbn [recv_all_loop].
+  destruct a as [|a0 a'].
+  - rewrite (recv_of_strict_err _ _ _ _ _ _ _ _ E). rewrite same_as_prev_not_err by assumption.
+    rewrite recv_nil. cbn. reflexivity.
+  - rewrite (recv_of_strict_err _ _ _ _ _ _ _ _ E). rewrite same_as_prev_not_err by assumption.
+    rewrite recv_nil. cbn [same_as_prev item_eqb errkind_eqb]. rewrite recv_nil. cbn. reflexivity.
+Qed.
+
+Example hdr_truncation_nonvacuous :
+  recv_all cfg_fixed Optional lsp_mime 0 (enc lsp_mime [120] ++ enc_hdr lsp_mime 3 ++ [97; 98])
+  = [IRec [120]; IErr EUnexpectedEOF; IErr EEOF] /\
+  recv_all cfg_fixed Strict [] 0 (enc_hdr [] 3) = [IErr EEOF].
 Proof. vm_compute. auto. Qed.
